@@ -57,7 +57,8 @@ class C18(Prop):
         return gens
 
     def gens_random(self, tier, rnd):
-        gens = []
+        gens = [{"kind": "history", "seed": rnd.randrange(10 ** 6), "per": 80 if tier == "quick" else 400}
+                for _ in range(2 if tier == "quick" else 6)]
         pool = ["<title>x</title>", "<title>x</title> ", " <title>x</title>", "<title>y</title>", "plain", "plain ", "pl" + "ain",
                 "<meta a='1' b='2'>", "<meta b='2' a='1'>", "", " ", "<b>é</b>", "<b>é</b>"]
         for _ in range(300 if tier == "quick" else 3000):
@@ -66,8 +67,72 @@ class C18(Prop):
             gens.append({"kind": "pair", "a": a, "b": b, "how": rnd.choice(["html", "str", "tag"])})
         return gens
 
+    # constructions borrowed from the other properties' drivers: each is executed twice in THIS process, the second
+    # time after everything else has run and in the opposite order; what the library does for a construction must not
+    # depend on what was built or rendered before it (memo caches, module-level state, shared defaults, ...)
+    HISTORY_FROM = ["C02", "C03", "C04", "C14", "C15", "C16", "C10", "C11", "C13", "C19", "C20", "C08", "C05"]
+
+    def history_items(self, g):
+        import random
+        from ..registry import get_prop
+        items = []
+        for pid in self.HISTORY_FROM:
+            prop = get_prop(pid)
+            gens = prop.gens_random("quick", random.Random(g["seed"] * 1000 + int(pid[1:])))
+            rnd = random.Random(g["seed"] + int(pid[1:]))
+            rnd.shuffle(gens)
+            # always include the long-text twins (the same characters as a plain string in one item, as HTML() in another)
+            twins = [x for x in gens if not x.get("prime") and len(x.get("s", [])) >= 200]
+            for gen in twins + gens[: g["per"]]:
+                if gen.get("kind") in ("cprange", "batch"):
+                    continue
+                items.append((prop, gen))
+        return items
+
+    def history_run(self, g, order_name):
+        """Executed inside a fresh interpreter (harness/hist_worker.py): all items in one order, one digest per item."""
+        import hashlib
+        import random
+        from ..core import canon
+        items = self.history_items(g)
+        order = list(range(len(items)))
+        if order_name == "backward":
+            order.reverse()
+        elif order_name != "forward":
+            random.Random(order_name).shuffle(order)
+        obs = []
+        for idx in order:
+            prop, gen = items[idx]
+            try:
+                r = prop.execute(gen)
+            except Exception as ex:  # noqa
+                r = {"raised": type(ex).__name__}
+            rs = r if isinstance(r, list) else [r]
+            clean = [{k: v for k, v in x.items() if k not in ("gen", "_module")} for x in rs if x is not None]
+            obs.append(hashlib.sha1(canon(clean).encode()).hexdigest()[:16])
+        return [i + 1 for i in order], obs
+
+    def history_record(self, g):
+        # one fresh interpreter per order: a construction's result must not depend on what ran before it
+        orders = ["forward", "backward"] + [f"shuffle{k}" for k in range(g.get("shuffles", 1))]
+
+        def spawn(name):
+            env = dict(os.environ, PYTHONHASHSEED="0", PYTHONDONTWRITEBYTECODE="1", VERIF_REPO=str(REPO))
+            p = subprocess.run([sys.executable, str(VERIF / "harness" / "hist_worker.py"), json.dumps(g), name],
+                               capture_output=True, text=True, env=env, timeout=900, cwd=str(VERIF))
+            if p.returncode != 0:
+                from ..core import MachineryError
+                raise MachineryError("history worker failed: " + (p.stderr.strip().splitlines() or ["?"])[-1][:200])
+            return json.loads(p.stdout.strip().splitlines()[-1])
+        with ThreadPoolExecutor(len(orders)) as ex:
+            outs = list(ex.map(spawn, orders))
+        runs = [{"p": i + 1, "seed": 0, "order": o["order"], "obs": o["obs"]} for i, o in enumerate(outs)]
+        return {"k": "runs", "runs": runs, "gen": g}
+
     def execute(self, g):
         import htmltools as H
+        if g["kind"] == "history":
+            return self.history_record(g)
         if g["kind"] == "batch":
             jobs = [(o, s) for o in g["orders"] for s in g["seeds"]]
             with ThreadPoolExecutor(NCPU) as ex:
